@@ -306,6 +306,7 @@ package ristretto
 //@   loop 1 invariant #vwas forall i int, k uint64 :: 0 <= i && i < len(victims) && k == victims[i].Key ==> old(gcHas(p.evict.keyCosts, k)) && victims[i].Cost == old(p.evict.keyCosts[k]) && victims[i].Conflict == 0
 //@   loop 1 invariant #shrink forall k uint64 :: gcHas(p.evict.keyCosts, k) ==> old(gcHas(p.evict.keyCosts, k)) && p.evict.keyCosts[k] == old(p.evict.keyCosts[k])
 //@   loop 1 invariant #vdistinct forall i, j int :: 0 <= i && i < j && j < len(victims) ==> victims[i].Key != victims[j].Key
+//@   loop 1 invariant #vall forall k uint64 :: old(gcHas(p.evict.keyCosts, k)) && !gcHas(p.evict.keyCosts, k) ==> exists j int :: 0 <= j && j < len(victims) && victims[j].Key == k
 //@   loop 1 invariant #vfresh gcFresh(victims)
 //@   loop 2 modifies nothing
 //@   loop 2 invariant #init rangeindex == -1 ==> minHits == 9223372036854775807
@@ -315,6 +316,7 @@ package ristretto
 //@   at call del#1 assert [C09] #victim-cost minCost == p.evict.keyCosts[minKey]
 //@   at call del#1 assert [C09] #victim-below-newcomer tinyEst(p.admit, minKey) <= tinyEst(p.admit, key)
 //@   at call del#1 assert [C09] #victim-least forall j int :: 0 <= j && j < len(sample) ==> tinyEst(p.admit, minKey) <= tinyEst(p.admit, sample[j].key)
+//@   at call roomLeft#2 assert #hint-last len(victims) > 0 && victims[len(victims)-1].Key == minKey
 //@   at call add#3 assert [C09] #reject-lower tinyEst(p.admit, key) < minHits && forall j int :: 0 <= j && j < len(sample) ==> minHits <= tinyEst(p.admit, sample[j].key)
 //@   ensures [C03] #fits result1 ==> gcMaxCostLast-p.evict.used >= 0 && cost <= gcMaxCostLast
 //@   ensures [C03,C13] #admitted result1 ==> gcHas(p.evict.keyCosts, key) && p.evict.keyCosts[key] == cost && !old(gcHas(p.evict.keyCosts, key))
@@ -322,6 +324,7 @@ package ristretto
 //@   ensures [C03] #wf wfLFU(p.evict)
 //@   ensures [C09] #fastpath !old(gcHas(p.evict.keyCosts, key)) && 0 <= cost && cost < 1<<62 && 0 <= old(p.evict.used) && old(p.evict.used) < 1<<62 && cost <= old(gcMaxCostLast) && old(gcMaxCostLast)-(old(p.evict.used)+cost) >= 0 ==> result1 && len(result0) == 0 && forall k uint64 :: k != key ==> gcHas(p.evict.keyCosts, k) == old(gcHas(p.evict.keyCosts, k)) && p.evict.keyCosts[k] == old(p.evict.keyCosts[k])
 //@   ensures [C09,C13] #victims forall i int, k uint64 :: 0 <= i && i < len(result0) && k == result0[i].Key ==> result0[i] != nil && !gcHas(p.evict.keyCosts, k) && old(gcHas(p.evict.keyCosts, k)) && result0[i].Cost == old(p.evict.keyCosts[k]) && result0[i].Conflict == 0
+//@   ensures [C13] #evicted-are-victims forall k uint64 :: old(gcHas(p.evict.keyCosts, k)) && !gcHas(p.evict.keyCosts, k) ==> exists j int :: 0 <= j && j < len(result0) && result0[j].Key == k
 //@   ensures [C04,C09] #victims-distinct forall i, j int :: 0 <= i && i < j && j < len(result0) ==> result0[i].Key != result0[j].Key
 //@   ensures [C13] #others forall k uint64 :: k != key && gcHas(p.evict.keyCosts, k) ==> old(gcHas(p.evict.keyCosts, k)) && p.evict.keyCosts[k] == old(p.evict.keyCosts[k])
 
@@ -574,6 +577,10 @@ package ristretto
 //@   modifies gcMaxCostLast
 //@   ensures [C03] c != nil ==> result == gcMaxCostLast-gcSum(c.cachePolicy.evict.keyCosts)
 
+// Every element of the write buffer is a real item; only Close closes the buffer,
+// after the applier has stopped.
+//@ chaninv open [V any] *Item[V] (i): i != nil
+
 //@ spec queued[K Key, V any](c *Cache[K, V], pos int) *Item[V] = gcAt(c.setBuf, pos)
 
 //@ func (c *Cache) SetWithTTL(key K, value V, cost int64, ttl time.Duration) bool
@@ -620,3 +627,39 @@ package ristretto
 //@   ensures [C14] #frontier-advanced m != nil ==> m.lastCleanedBucketNum == cleanupBucket(gcNow())
 //@   ensures [C13] #shrinkM m != nil ==> forall k uint64 :: smHas(store.(*shardedMap[V]), k) ==> old(smHas(store.(*shardedMap[V]), k))
 //@   ensures [C13] #agree m != nil ==> forall k uint64 :: smHas(store.(*shardedMap[V]), k) && old(gcHas(policy.evict.keyCosts, k)) ==> gcHas(policy.evict.keyCosts, k)
+
+//@ func (sm *shardedMap) Cleanup(policy *defaultPolicy[V], onEvict func(item *Item[V]))
+//@   noframe
+//@   requires wfSharded(sm) && bucketDurationSecs > 0 && sm.expiryMap != nil && policy != nil && (policy.metrics == nil || wfMetrics(policy.metrics)) && policy.evict.metrics == policy.metrics
+//@   modifies allmaps(sm.shards[0].data), sm.expiryMap.buckets[*], sm.expiryMap.buckets[*][*], sm.expiryMap.lastCleanedBucketNum, policy.evict.used, policy.evict.keyCosts[*], gcMtot[*]
+//@   ensures [C13] #shrinkM forall k uint64 :: smHas(sm, k) ==> old(smHas(sm, k))
+//@   ensures [C13] #agree forall k uint64 :: smHas(sm, k) && old(gcHas(policy.evict.keyCosts, k)) ==> gcHas(policy.evict.keyCosts, k)
+
+//@ func (p *Metrics) trackEviction(numSeconds int64)
+//@   trusted life-expectancy histogram bookkeeping under Metrics.mu; no property depends on it
+
+// trackAdmission: bookkeeping for the life-expectancy histogram only.
+//@ func (c *Cache) processItems$1(key uint64)
+//@   noframe
+//@   requires c != nil && startTs != nil
+//@   loop 1 modifies startTs[*]
+
+// The applier.  Its loop invariant is the half of C13 that makes every stored entry
+// evictable: whatever is in the map is charged by the policy.  (The other half needs
+// the tombstones still in the write buffer and is argued in DESIGN.md.)
+//@ spec applierOK[K Key, V any](c *Cache[K, V]) bool = wfCache(c) && c.cachePolicy.evict != nil && (c.cachePolicy.metrics == nil || wfMetrics(c.cachePolicy.metrics)) && c.cachePolicy.evict.metrics == c.cachePolicy.metrics && c.cachePolicy.metrics == c.Metrics && cacheSM(c).expiryMap != nil && c.stop != nil && c.done != nil && c.stop != c.done && c.cleanupTicker != nil && !gcClosed(c.done) && !gcClosed(c.setBuf)
+//@ spec charged[K Key, V any](c *Cache[K, V]) bool = forall k uint64 :: smHas(cacheSM(c), k) ==> gcHas(c.cachePolicy.evict.keyCosts, k)
+
+//@ func (c *Cache) processItems()
+//@   thread
+//@   noframe
+//@   requires applierOK(c) && charged(c)
+//@   loop 1 modifies allmaps(cacheSM(c).shards[0].data), cacheSM(c).expiryMap.buckets[*], cacheSM(c).expiryMap.buckets[*][*], cacheSM(c).expiryMap.lastCleanedBucketNum, c.cachePolicy.evict.used, c.cachePolicy.evict.keyCosts[*], gcMtot[*], gcMaxCostLast, gcChan(c.setBuf), gcChan(c.stop), gcChan(c.done), gcChan(c.cleanupTicker.C), startTs[*]
+//@   loop 1 invariant #ok applierOK(c)
+//@   loop 1 invariant [C13] #charged charged(c)
+//@   at call Del#3 assume [hypothesis] #no-collision !smHas(cacheSM(c), i.Key) || conflictOK(smEntry(cacheSM(c), i.Key), i.Conflict)
+//@   at call close#1 assume [hypothesis] #marker-open !gcClosed(i.wait) && i.wait != c.done && i.wait != c.stop
+//@   loop 2 modifies allmaps(cacheSM(c).shards[0].data), cacheSM(c).expiryMap.buckets[*][*], gcMtot[*], startTs[*]
+//@   loop 2 invariant #ok applierOK(c)
+//@   loop 2 invariant [C13] #victims-pending forall k uint64 :: smHas(cacheSM(c), k) ==> gcHas(c.cachePolicy.evict.keyCosts, k) || exists j int :: rangeindex < j && j < len(victims) && victims[j].Key == k
+//@   loop 2 invariant #victims forall j int :: 0 <= j && j < len(victims) ==> victims[j] != nil
